@@ -1,11 +1,14 @@
 import AFDriver.Wire
 import AFModel.Grid
+import AFModel.GridPhys
+import AFModel.GridComp
+import AFModel.FloatOps
 
 /-! Driver of the `Grid` model (property C16). Queries (`"q"`):
 `grid` (GridSearch.fit), `sens` (Sensitivity.run), `builder` (ResultBuilder), `steps`, `shape`. -/
 
 open Lean (Json)
-open AF.Wire AF.Grid
+open AF AF.Wire AF.Grid
 
 namespace AF.Driver.C16
 
@@ -44,6 +47,25 @@ def orderJson (l : List (Option Nat)) : Json :=
 
 def wantRat (j : Json) : Bool := (getBool j "rat").toOption.getD false
 
+/-- `"trip": [[u, q], …]` – quantile round trips `q = ndtr(ndtri(u))` measured on the real code -/
+def tripTable (j : Json) : Except String (Option (List (UInt64 × Float))) :=
+  match j.getObjVal? "trip" with
+  | .error _ => pure none
+  | .ok t => do
+      let rows ← (← t.getArr?).toList.mapM fun e => do
+        let pair ← e.getArr?
+        if pair.size != 2 then throw "bad trip"
+        pure ((← floatOfJson pair[0]!).toBits, (← floatOfJson pair[1]!))
+      pure (some rows)
+
+def jOutcome : AF.Prior.Outcome Float → Json
+  | .ok v => jF v
+  | .limit => Json.str "limit"
+
+def jLimits : Option (Float × Float) → Json
+  | some (a, b) => Json.arr #[jF a, jF b]
+  | none => Json.null
+
 def handleGrid (j : Json) : Except String Json := do
   let cfg := cfgOf j
   let n ← getNat j "n"
@@ -74,6 +96,12 @@ def handleGrid (j : Json) : Except String Json := do
     let rr ← ratRanges ranges
     let rcells := gridModel ratNum cfg n rr
     out := out ++ [("rat_cells", jList (jList fun c => Json.arr #[jR c.1, jR c.2]) rcells)]
+  match ← tripTable j with
+  | some table =>
+      let fphys := fun (uss : List (List Float)) =>
+        jList (jList jOutcome) (physLists AF.Prior.floatSpecial (tripOf table) dims uss)
+      out := out ++ [("fphys_lower", fphys units), ("fphys_upper", fphys uppers), ("fphys_centre", fphys centres)]
+  | none => pure ()
   match j.getObjVal? "places" with
   | .ok pj =>
       let places ← (← pj.getArr?).toList.mapM fun e => do
@@ -106,6 +134,14 @@ def handleSens (j : Json) : Except String Json := do
         Json.arr #[jF c.unitCentre, jF c.unitLower, jF c.unitUpper, jF c.centre, jF c.lower, jF c.upper]) cells),
     ("order", jList (fun (x : Nat × Nat) => jNat x.2) (collectSorted (arrivals.map fun a => (a, a)))),
     ("headers", jList Json.str (headers cfg namesId namesAttr))]
+  match ← tripTable j with
+  | some table =>
+      let pcells := sensPhysCells floatNum AF.Prior.floatSpecial (tripOf table) scale dims
+      out := out ++ [("fphys_cells", jList (jList fun (c : SensPhys Float) =>
+        Json.arr #[jOutcome c.centre, jLimits c.limits]) pcells),
+        ("labels", jList (jList fun (x : String × AF.Prior.Outcome Float) => Json.arr #[Json.str x.1, jOutcome x.2])
+          (sensLabels floatNum AF.Prior.floatSpecial (tripOf table) scale cfg namesId namesAttr dims))]
+  | none => pure ()
   if wantRat j then
     let rr ← ratRanges ranges
     let rscale ← exact scale
@@ -134,7 +170,29 @@ def handleShape (j : Json) : Except String Json := do
     let pair ← e.getArr?
     if pair.size != 2 then throw "bad pair"
     pure ((← pair[0]!.getNat?), (← pair[1]!.getNat?))
-  pure (Json.mkObj [("sides", jList jNat (pairs.map fun p => sideOf cfg p.1 p.2))])
+  pure (Json.mkObj [("sides", jList jNat (pairs.map fun p => sideOf cfg p.1 p.2)),
+    ("native_ok", jList Json.bool (pairs.map fun p => nativeOk cfg p.1 p.2)),
+    ("upper_first", jList jF (pairs.map fun p => upperUnit floatNum cfg (sideOf cfg p.1 p.2) 0.0))])
+
+/-- `cellcomp`: the composition of sampled cells (`mapper_from_partial_prior_arguments`): places, ids in
+parameter order, prior count and the instance built from a vector -/
+def handleCellComp (j : Json) : Except String Json := do
+  let parsed ← parseNode (← j.getObjVal? "comp")
+  let t := parsed.node
+  let gridIds ← natList j "grid_ids"
+  let cells ← (← getArr j "cells").toList.mapM fun c => do
+    let fresh ← natList c "fresh"
+    let v ← vecOfJson (← c.getObjVal? "v")
+    let job ← getNat c "job"
+    let ct := cellComp t gridIds fresh
+    pure (Json.mkObj [
+      ("paths", Json.arr ((paths ct).map jsonOfPath).toArray),
+      ("path_ids", jList (fun (x : Path × Nat) => jNat x.2) (pathPriors ct)),
+      ("ids", jList jNat (uniqueIds ct)),
+      ("count", jNat (count ct)),
+      ("inst", jsonOfInst (instFromVector floatOps ct v)),
+      ("sequential", jList jNat (freshIds ((getNat j "base").toOption.getD 0) gridIds.length job))])
+  pure (Json.mkObj [("count", jNat (count t)), ("cells", Json.arr cells.toArray)])
 
 end AF.Driver.C16
 
@@ -147,6 +205,7 @@ def handleC16 (j : Json) : Except String Json := do
   | "builder" => C16.handleBuilder j
   | "steps" => C16.handleSteps j
   | "shape" => C16.handleShape j
+  | "cellcomp" => C16.handleCellComp j
   | s => throw s!"unknown query {s}"
 
 end AF.Driver
